@@ -1093,6 +1093,66 @@ theorem mulSig_table : ∀ t ∈ LT.all,
 
 
 /-! ### `retain_ltype` (generic in the home policy; headline statements are restated in the property file) -/
+
+/-! ## views: strided addressing = index arithmetic (pass 7) -/
+
+theorem dot_cstrides : ∀ {s : Shape} {i : List Nat}, inb s i → dot i (cstrides s) = ravel s i
+  | [], [], _ => rfl
+  | [], _ :: _, h => by simp [inb] at h
+  | _ :: _, [], h => by simp [inb] at h
+  | _ :: s, _ :: is, h => by
+    simp only [inb] at h
+    simp [dot, cstrides, ravel, dot_cstrides h.2]
+
+theorem view_ofT_get' (t : T α) (i : List Nat) (h : inb t.shape i) : (View.ofT t).get i = t.get i := by
+  simp [View.ofT, View.get, T.get, dot_cstrides h]
+
+theorem view_contiguous_get' (v : View α) (i : List Nat) (h : inb v.shape i) : v.contiguous.get i = v.get i := by
+  simp [View.contiguous, T.get, unravel_ravel' h]
+
+theorem contiguous_ofT' (t : T α) (k : Nat) (h : k < numel t.shape) : (View.ofT t).contiguous.data k = t.data k := by
+  simp only [View.contiguous, View.ofT]
+  rw [View.get]
+  simp [dot_cstrides (unravel_inb h), ravel_unravel' h]
+
+/-- slicing: stride arithmetic = index arithmetic -/
+theorem dot_slice (start step : Nat) : ∀ (dim : Nat) (i st : List Nat), i.length = st.length →
+    start * st.getD dim 0 + dot i (st.modify dim (· * step)) = dot (i.modify dim (fun j => start + j * step)) st
+  | _, [], [], _ => by simp [dot]
+  | _, [], _ :: _, h => by simp at h
+  | _, _ :: _, [], h => by simp at h
+  | 0, a :: as, b :: bs, _ => by
+    simp [dot, List.modify, Nat.add_mul, Nat.mul_assoc, Nat.mul_comm step b, Nat.add_assoc]
+  | dim + 1, a :: as, b :: bs, h => by
+    have ih := dot_slice start step dim as bs (by simpa using h)
+    simp [dot, List.modify] at ih ⊢
+    omega
+
+theorem dot_select (idx : Nat) : ∀ (dim : Nat) (i st : List Nat), dim < st.length → i.length + 1 = st.length →
+    idx * st.getD dim 0 + dot i (st.eraseIdx dim) = dot (i.insertIdx dim idx) st
+  | 0, i, b :: bs, _, _ => by
+    simp [dot, List.insertIdx]
+  | dim + 1, [], b :: bs, hd, h => by
+    simp at h; simp [h] at hd
+  | dim + 1, a :: as, b :: bs, hd, h => by
+    have ih := dot_select idx dim as bs (by simpa using hd) (by simpa using h)
+    simp [dot, List.insertIdx] at ih ⊢
+    omega
+
+theorem dot_replicate_zero : ∀ (k : Nat) (a r : List Nat), dot a (List.replicate k 0 ++ r) = dot (a.drop k) r
+  | 0, a, r => by simp
+  | k + 1, [], r => by simp [dot]
+  | k + 1, x :: a, r => by
+    simp [dot, List.replicate_succ, dot_replicate_zero k a r]
+
+theorem dot_expandEq : ∀ (s : Shape) (i st : List Nat), dot i (expandStridesEq s st) = dot (projEq s i) st
+  | [], i, st => by cases i <;> simp [expandStridesEq, projEq, dot]
+  | n :: s, [], st => by cases st <;> simp [projEq, dot]
+  | n :: s, a :: i, [] => by simp [expandStridesEq, projEq, dot]
+  | n :: s, a :: i, b :: st => by
+    simp only [expandStridesEq, projEq, dot, dot_expandEq s i st]
+    split <;> simp
+
 namespace Retain
 
 
